@@ -117,7 +117,7 @@ CLAIMED.update({
               "nothing and leaves positive lengths; an entry outside a requested span raises; blanks off only sorts.  The prepared "
               "data the implementation writes is compared with the model and with a clause-by-clause oracle inside Coq.",
               "Coq proof (accumulator invariant of the absorption loop, partition lemmas, sortedness => sort is identity) + in-Coq differential correspondence and oracle",
-              "5/C04", "The all-intervals-below-threshold case violates the partition clause on the real code (known finding F19, witness theorem C04_all_short_refuted)."),
+              "5/C04", "F19 (every interval below the threshold: tier written without intervals) was exhibited by this check and repaired (0dc43c3); the partition theorem now has no side condition on lengths; the pre-repair function is kept for the witness C04_all_short_legacy_refuted."),
 })
 
 CLAIMED.update({
@@ -142,7 +142,7 @@ CLAIMED.update({
               "left over, content = prepared in-memory data); a Python twin of that reader and the README JSON schemas give the "
               "numeric partition clause and 'all four formats decode to identical content'.",
               "Coq proof (tokenizer lemma by list induction, partition lemmas) + specification reader evaluated inside Coq on the implementation's output",
-              "5/C02", "The reference reader is my reading of Praat's file-format page and defines well-formedness here.  Known finding F19 (all intervals below the threshold) is reported, not suppressed otherwise."),
+              "5/C02", "The reference reader is my reading of Praat's file-format page and defines well-formedness here.  F19 (all intervals below the threshold), found here and in C04, is repaired (0dc43c3)."),
     "C03": _c("Proof: Props/C03.v shows CRLF invariance of both text readers, that blank removal omits exactly the empty-labelled "
               "entries and nothing else, the duplicate-name policy (unique names, one per tier; untouched when already unique; error "
               "mode raises iff a name repeats), that long and short text fields decode every label identically, and that the long-form reader "
